@@ -47,6 +47,9 @@ def parse_model_build(line):
     return d
 
 
+OUTCOME_MISMATCH = []   # (expression, impl answer, model answer): filled by every Pair, reported by ./check after the run
+
+
 class Pair:
     """impl and model views of the same expressions"""
 
@@ -58,6 +61,21 @@ class Pair:
         self.hx = hx
         self.impl = [parse_impl_build(l) for l in self.h.ask(["B " + x for x in hx])]
         self.model = [parse_model_build(l) for l in self.m.ask(["B " + x for x in hx])]
+        # the build OUTCOME is part of every tie: an expression the model builds and the crate rejects with a structured error
+        # (or the other way round) is a disagreement in its own right, whatever the property (panics, timeouts and the
+        # regex size / nesting limits are C05's subject and are left to it)
+        import re as _re
+        for e, i, mo in zip(exprs, self.impl, self.model):
+            if i.get("err") == "compile":
+                # the size limit of the compiled program is not modelled: judged on small expressions only (short, small
+                # bounds whose product is small, shallow), as in C05
+                nums = [int(x) for x in _re.findall(r"\d+", e)]
+                small = len(e) < 200 and all(x < 50 for x in nums) and (max(nums) if nums else 1) ** min(len(nums), 3) < 3000 and not _re.search(r"[{<]{12,}", e)
+                if not small:
+                    continue
+            if i.get("err") in ("parse", "compile") or str(i.get("err", "")).startswith("rule:") or i["ok"]:
+                if (mo["ok"] or mo.get("err") in ("parse", "compile") or str(mo.get("err", "")).startswith("rule:")) and i["ok"] != mo["ok"]:
+                    OUTCOME_MISMATCH.append((e, i["raw"][:200], mo["raw"][:200]))
 
     def model_cmd(self, cmd, idx=None):
         idx = range(len(self.exprs)) if idx is None else idx
